@@ -540,6 +540,7 @@ SETTINGS = {
     "STORAGE_PERSISTENT": (None, ("storage", "persistent"), lambda i: [True, False, True, False, True][i]),
 }
 LAYERS = ["flag", "env", "profile", "parent", "grandparent"]
+ZERO_IS_A_VALUE = {"ANNOUNCE_POW", "FETCH_MAX_PARALLEL", "UPLOAD_MAX_PARALLEL", "CONTROL_STREAM_MAX"}
 
 
 def set_path(d, path, value):
@@ -593,8 +594,13 @@ def c32(ctx):
             if "flag" in chosen and flag is None:
                 chosen.remove("flag")
             assignment[setting] = chosen
+            values = {l: gen(LAYERS.index(l)) for l in chosen}
+            # a flag given with the value 0 (no proof of work, unlimited parallelism / stream size) is still a flag
+            if "flag" in chosen and setting in ZERO_IS_A_VALUE and rng.random() < 0.4:
+                values["flag"] = 0
+                part.note("config.flags-set-to-zero")
             for l in chosen:
-                v = gen(LAYERS.index(l))
+                v = values[l]
                 if l == "flag":
                     flags += [flag, str(v)]
                 elif l == "env":
@@ -607,7 +613,7 @@ def c32(ctx):
                     set_path(profiles["gpar"], path, v)
             if chosen:
                 top = min(chosen, key=LAYERS.index)
-                expected[setting] = gen(LAYERS.index(top))
+                expected[setting] = values[top]
         doc = {"profiles": profiles}
         env_name = None
         if use_env:
